@@ -259,7 +259,7 @@ func ruleC11Sync(c *Ctx) {
 			rev := false
 			eachInstr(fn, func(in ssa.Instruction) {
 				if cl, ok := in.(*ssa.Call); ok && callMatches(cl, "builtin:append") {
-					if el := appendedElem(R, cl); strings.HasPrefix(el, fRep+"Chain($0)#0[+phi{(+len("+fRep+"Chain($0)#0) -1)") {
+					if el := appendedElem(R, cl); el == fRep+"Chain($0)#0[-* +len("+fRep+"Chain($0)#0) -1]" {
 						rev = true
 					}
 				}
@@ -292,7 +292,8 @@ func ruleC11Sync(c *Ctx) {
 	if fn := c.Anchor(rule, fTask+"InternalSnapshotCleaner"); fn != nil {
 		R := NewRenderer(fn)
 		ck := fCC + "GetCheckpoint($0.client)#0"
-		cands := "sync.GetDeleteCandidateChain(" + fSrv + "Replica($1)," + ck + ")#0"
+		srvR := c.P.callTerm(fSrv+"Replica", "$1")
+		cands := "sync.GetDeleteCandidateChain(" + srvR + "," + ck + ")#0"
 		pr := CallsTo(fn, fSrv+"PrepareRemoveDisk")
 		if len(pr) == 1 && callRender(R, pr[0]) == fSrv+"PrepareRemoveDisk($1,"+cands+"[+0])" {
 			c.OK(rule, FnName(fn)+" | removes candidate[0] computed for the controller's checkpoint", c.P.InstrPos(pr[0]), "", false)
@@ -302,7 +303,7 @@ func ruleC11Sync(c *Ctx) {
 		c.Guard(rule, fn, pr, "PrepareRemoveDisk", nil,
 			atom("controller checkpoint fetched", isNilAtom(fCC+"GetCheckpoint($0.client)#1")),
 			atom("controller checkpoint set", neAtom(`""`, ck)),
-			atom("controller and replica agree on the checkpoint", eqAtom(ck, fRep+"Info("+fSrv+"Replica($1)).Checkpoint")),
+			atom("controller and replica agree on the checkpoint", eqAtom(ck, c.P.callTerm(fRep+"Info", srvR)+".Checkpoint")),
 			atom("retention count reached", "+len("+cands+") -sync.SnapshotRetentionCount >=0"))
 		co := CallsTo(fn, fRC+"Coalesce")
 		rm := CallsTo(fn, fSrv+"RemoveDiffDisk")
@@ -411,7 +412,10 @@ func ruleC19Clone(c *Ctx) {
 	}
 	if fn := c.Anchor(rule, "app.startReplica"); fn != nil {
 		R := NewRenderer(fn)
-		st := fRep + "GetCloneStatus(" + fSrv + "Replica(replica.NewServer("
+		st := c.P.callTerm(fRep+"GetCloneStatus", c.P.callTerm(fSrv+"Replica", "replica.NewServer("))
+		if i := strings.Index(st, "replica.NewServer("); i >= 0 {
+			st = st[:i+len("replica.NewServer(")]
+		}
 		var already string
 		for _, ea := range allAtoms(fn, R) {
 			s := ea.Atom.String()
@@ -486,7 +490,7 @@ func ruleC11Rest(c *Ctx) {
 	if fn != nil {
 		R := NewRenderer(fn)
 		sites := CallsTo(fn, fCtl+"DeleteSnapshot")
-		lr := fCtl + "ListReplicas($0.c)"
+		lr := c.P.callTerm(fCtl+"ListReplicas", "$0.c")
 		c.Guard(rule, fn, sites, "delete snapshot", lockOrUnlock,
 			needWLock("controller write lock taken"),
 			atom("request body parsed", isNilAtom("(*github.com/rancher/go-rancher/api.ApiContext).Read(github.com/rancher/go-rancher/api.GetApiContext($2),&var(controller/rest.SnapshotInput))")),
